@@ -24,7 +24,8 @@ RULE = ("per-run seed -> storage configuration (simulated FileStorage with mmap 
         "(sorted by a column-less field, scored, document numbers) and compares with a searcher freshly opened on the same "
         "generation. The recorded history (invoke/return stamped with the global event number, TOC rename and "
         "commit-return numbers per generation) is checked afterwards. Non-trivial = >=1 commit, >=1 probe and >=1 context "
-        "switch; distinct = distinct event-log SHA-256; interleaving signature = hash of (from,to,event kind) at switches.")
+        "switch; distinct = distinct event-log SHA-256; interleaving signature = hash of (from,to,event kind) at switches."
+        ' Line-level pre-emption (sys.settrace line events of the library files shared between threads, p/n per n-th visit, budgeted) in 30% of runs; threads may share one Index object; 20% of runs contain an add_field commit and the searcher view includes schema names and Every(field) per field.')
 ASSUMPTIONS = ["one searcher per simulated thread, as the documentation requires",
                "a reader opened over [a,b] may legitimately see any generation between the last commit that returned before a and the last TOC rename issued before b",
                "probes read every stored field, posting, length, vector and column through the held reader (this is what touches lazily opened files)"]
